@@ -1,9 +1,11 @@
-\* C26 quick: every single-field schema of nesting depth <= 2 over all field kinds
+\* C26 quick: every single-field schema of nesting depth <= 2 over all field kinds, and every
+\* two-field schema (depth <= 1) x (base kind)
 SPECIFICATION Spec
 CONSTANTS
   Ints <- QuickInts
   Depth = 2
-  TwoFields = FALSE
+  TwoFields = TRUE
+  FirstDepth = 1
   Randoms = 2
 INVARIANTS RoundTrip RequiredRejected Predicted ClassesKnown Emit
 CHECK_DEADLOCK FALSE
